@@ -26,7 +26,19 @@ def gen(rng, tier):
                 bad = rng.random() < 0.1
                 sops.append([rng.randrange(2), n + 1 if bad else rng.randrange(n), rng.randint(-6, 6)])
         t = [rng.randint(-4, 4) for _ in range(n)]
-        out.append({"G": G, "D": D, "s": s, "t": t, "sops": sops, "q": rng.randrange(n), "kind": kind, "seed": rng.randrange(1 << 30), "order": rng.sample(range(n), n)})
+        # a series of related scripts applied through the SAME CFLaplacian object: each differs from the previous one in a single entry
+        # (one more borrow, one more lend, a jump by 2^61-1 / 2^64, a sign flip) - the variants a cache keyed on the script would confuse
+        series = []; cur = list(s)
+        for _ in range(rng.randint(2, 5)):
+            cur = list(cur); i = rng.randrange(n); how = rng.choice(["dec", "inc", "m61", "p64", "neg", "same", "small"])
+            if how == "dec": cur[i] -= 1
+            elif how == "inc": cur[i] += 1
+            elif how == "m61": cur[i] += rng.choice([-1, 1]) * (2 ** 61 - 1)
+            elif how == "p64": cur[i] += 2 ** 64
+            elif how == "neg": cur[i] = -cur[i]
+            elif how == "small": cur[i] = rng.choice([-2, -1, 0, 1, 2])
+            series.append(cur)
+        out.append({"G": G, "D": D, "s": s, "t": t, "sops": sops, "q": rng.randrange(n), "kind": kind, "seed": rng.randrange(1 << 30), "order": rng.sample(range(n), n), "series": series})
     return out
 def impl(c):
     from chipfiring import CFLaplacian, CFiringScript, CFDataProcessor
@@ -59,6 +71,8 @@ def impl(c):
             k = out["script"][v]
             for _ in range(abs(k)): (e.lending_move if k > 0 else e.borrowing_move)(names[v])
         out["moves"] = common.div_to_list(G, e)
+    out["series"] = [common.div_to_list(G, L.apply(d, CFiringScript(g, {names[i]: x for i, x in enumerate(sv)}))) for sv in c.get("series", [])]
+    out["pure2"] = before == (common.div_to_list(G, d), d.get_total_degree(), dict(sc.script))
     # serializers accept the result
     ser = []
     try:
@@ -102,6 +116,7 @@ def model_lines(c, r):
         sc = r["ok"]["script"]
         ls.append(["lapapply"] + g + common.enc_list(c["D"]) + common.enc_list(sc))
         ls.append(["scripted"] + g + common.enc_list(c["D"]) + common.enc_list(sc if max(abs(x) for x in sc) <= 12 else [0] * n) + common.enc_list(c["order"]))
+        for sv in c.get("series", []): ls.append(["lapapply"] + g + common.enc_list(c["D"]) + common.enc_list(sv))
     return ls
 _j1 = judge
 def judge(c, r, mo):
@@ -114,6 +129,10 @@ def judge(c, r, mo):
     if o["add_l"] != o["add_r"]: out.append({"what": "apply is not additive in the script: %s vs %s" % (o["add_l"], o["add_r"])})
     if "moves" in o and (o["moves"] != S or S != A): out.append({"what": "scripted lends/borrows give %s (model %s), apply gives %s" % (o["moves"], S, A)})
     if o["ser"] != ["dict", "json", "txt"]: out.append({"what": "a serializer rejected the result of apply: %s" % o["ser"]})
+    for k, sv in enumerate(c.get("series", [])):
+        E = [int(x) for x in mo[5 + k]]
+        if o["series"][k] != E: out.append({"what": "apply #%d through the same Laplacian object with s=%s returned %s, exact D - L*s is %s" % (k + 2, sv, o["series"][k], E)}); break
+    if not o.get("pure2", True): out.append({"what": "a later apply modified the divisor or the first script"})
     return out
 def oracle(c, r):
     if r is None or "exc" in r: return {"violates": True, "why": "raised"}
@@ -129,6 +148,9 @@ def oracle(c, r):
     if "moves" in o and o["moves"] != exact: why.append("moves one at a time give %s" % o["moves"])
     keep = [v for v in range(n) if v != c["q"]]
     if o["R"] != [[L[a][b] for b in keep] for a in keep]: why.append("reduced matrix wrong")
+    for k, sv in enumerate(c.get("series", [])):
+        ex = [c["D"][v] - sum(L[v][w] * sv[w] for w in range(n)) for v in range(n)]
+        if o["series"][k] != ex: why.append("apply #%d on the same Laplacian object, s=%s: %s, D - L*s = %s" % (k + 2, sv, o["series"][k], ex)); break
     return {"violates": bool(why), "why": why}
 def nontrivial(cases): return len({str((c["G"]["edges"], c["D"], c["s"], c["sops"])) for c in cases if any(c["s"]) and c["G"]["edges"]})
 def distribution(cases):
